@@ -6,6 +6,8 @@ ids = [json.loads(l)['id'] for l in open(os.path.join(ROOT, 'properties.jsonl'))
 TECH = 'bounded symbolic execution of the clang-14 LLVM IR of the real sources (own path-forking executor, engine S), assertions and branch feasibility decided by z3; counterexamples replayed on the g++ build'
 NOTE = 'Trusted: clang-14 -O1 lowering, engine S (validated on every run by concrete differential runs against the native build), z3, the environment models listed in the evidence (operator new/delete never fail; libstdc++ out-of-line functions modelled). Nothing is claimed outside the bounds recorded in the evidence.'
 CLAIMED = {
+ 'C15': ('4 C15', 'Every derived interface operation listed by the property is compared with its defining primitives on the same node, for all sizes 0..3 of every Sequence implementation, 0..2 handlers, set/unset defaults, and symbolic spellings for the equality operators; z3 decides every assertion on every path.'),
+ 'C16': ('4 C16', 'Elementary substitutions over all (parameter, value, query) picks and general substitutions over all binding histories of length K (quick 4, thorough 6) incl. rebinding, compared with a last-binding shadow map after every step.'),
  'C08': ('4 C08', 'Every insertion history up to N keys (all weak orderings, duplicates included) for both tree flavours and three comparators, plus one inductive step from every valid tree on a height-H skeleton: all red-black, BST, parent-link, height, find/insert identities hold on every path; z3 decides every branch and assertion. quick N=5,H=3; thorough N=7/6,H=4.'),
 }
 NA = { }
